@@ -94,6 +94,14 @@ def model_value(B, g, x, z):
     return float(g @ d + 0.5 * d @ (B @ d))
 
 
+def model_tol(B, g, x, z, rel=1e-10):
+    """Tolerance for comparing model values at z: relative part + the rounding floor of forming z - x."""
+    d = np.abs(z - x)
+    mscale = float(np.abs(g) @ d + 0.5 * d @ np.abs(B) @ d)
+    floor = 8 * EPS * float((np.abs(g) + np.abs(B) @ d) @ (np.abs(x) + np.abs(z)))
+    return rel * mscale + floor + 1e-300
+
+
 def ref_gcp(x, g, lb, ub, B):
     """First local minimiser of the model along P(x - t g).
 
